@@ -88,6 +88,11 @@ def kind_sites(fb, rep, rule, families):
 
 
 def run(fb, rep, tier):
+    _run(fb, rep, tier)
+    sense_splits(fb, rep)
+
+
+def _run(fb, rep, tier):
     rep.extra['explanation'] = EXPLANATION
     rep.rule('R01.1', 'solution-vector kind agreement at every producer / transformer / consumer call site and in the public getters', floor=60)
     n = kind_sites(fb, rep, 'R01.1', ('primal', 'slack', 'dual', 'redcost'))
@@ -174,3 +179,33 @@ def run(fb, rep, tier):
     rep.check(bool(init), 'R01.4', '_storeSolutionRealFromPresol|offset', sp.where(), 'sum starts at OBJ_OFFSET', 'the objective of a vanished LP does not start from the objective offset')
     rep.check(bool(term) and all('objReal(i)' in render(n) for n in term), 'R01.4', '_storeSolutionRealFromPresol|user-space-objective', sp.where(), 'primal[i] * objReal(i)',
               'the objective of a vanished LP is summed with %s instead of the user-space coefficient objReal(i): with scaling active the value is off by powers of two' % (render(term[0])[:70] if term else '?'))
+
+
+def sense_splits(fb, rep):
+    """R01.5: minimisation and maximisation differ by signs everywhere a solution vector, a violation or an objective value is produced.
+    An if / else (or ?:) that splits on the objective sense and has two identical arms ignores the sense: one of the two senses gets the
+    other one's sign (dual multipliers, reduced costs, objective value)."""
+    rep.rule('R01.5', 'the two arms of every split on the objective sense differ', floor=20)
+    k = 0
+    pat = re.compile(r'MINIMIZE|MAXIMIZE|\bmaximizing\b|\bminimizing\b|maxSense')
+    for f in sorted(fb.funcs.values(), key=lambda g: (g.file, g.line)):
+        if not f.name.startswith('soplex::') or not f.nodes:
+            continue
+        for x in f.nodes:
+            if f.in_assert(x):
+                continue
+            if x.k == 'IfStmt' and x.kid('else') is not None:
+                a, b = x.kid('then'), x.kid('else')
+            elif x.k == 'ConditionalOperator' and x.kid('then') is not None and x.kid('else') is not None:
+                a, b = x.kid('then'), x.kid('else')
+            else:
+                continue
+            c = render(x.kid('cond'))
+            if not pat.search(c) or '&&' in c or '||' in c:
+                continue
+            k += 1
+            same = render(a) == render(b)
+            rep.check(not same, 'R01.5', '%s|split(%s)@%d' % (f.name.replace('soplex::', '')[:50], c[:30], k), '%s:%d' % (f.file, x.l), 'arms differ',
+                      'both arms of the split on the objective sense (%s) are `%s`: the sense is ignored, so for one of the two senses the value has the wrong sign' % (c[:50], render(a)[:60]))
+    if k < 20:
+        raise AnalysisBroken('R01.5: only %d splits on the objective sense found' % k)
